@@ -71,12 +71,56 @@ def check(src, rep):
     rep.require(CRCF is not None, "cannot bind the computed-CRC field (no field receives the result of the fold)")
     # ---------------------------------------------------------------- R2: readout starts with '/', end found
     raises = [p for p in Engine(M).run(init) if p.status == "raise"]
-    starts_slash = any(g[0] == "cmp" and g[1] == "Eq" and g[2] == ("sub", stored, ("c", 0)) and g[3] == ("c", SLASH) and pol for g, pol, _ in p0.guards)
-    has_end = any(g[0] == "cmp" and g[1] == "Eq" and _is_find(g[2], stored, BANG) and g[3] == ("c", -1) and not pol for g, pol, _ in p0.guards)
+    def _canon(g, pol):
+        """comparison guard with the constant on the right and NotEq folded into the polarity"""
+        if g[0] != "cmp":
+            return None
+        op, a, b = g[1], g[2], g[3]
+        if a[0] == "c" and b[0] != "c":
+            a, b = b, a
+            op = {"Lt": "Gt", "Gt": "Lt", "LtE": "GtE", "GtE": "LtE"}.get(op, op)
+        if op == "NotEq":
+            op, pol = "Eq", not pol
+        return op, a, b, pol
+
+    def _first_is_slash(g, pol):
+        c = _canon(g, pol)
+        return c is not None and c[0] == "Eq" and c[1] == ("sub", stored, ("c", 0)) and c[2] == ("c", SLASH) and c[3]
+
+    def _found(g, pol):
+        """the guard says find('!') gave a position (find returns -1 or a position >= 0)"""
+        c = _canon(g, pol)
+        if c is None or not _is_find(c[1], stored, BANG) or c[2][0] != "c":
+            return False
+        op, k, pl = c[0], c[2][1], c[3]
+        return (op, k, pl) in (("Eq", -1, False), ("Lt", 0, False), ("LtE", -1, False), ("GtE", 0, True), ("Gt", -1, True))
+    starts_slash = any(_first_is_slash(g, pol) for g, pol, _ in p0.guards)
+    has_end = any(_found(g, pol) for g, pol, _ in p0.guards)
     if starts_slash and has_end and all(any(e[0] == "raise" and str(e[1]).startswith("ValueError") for e in p.effects) for p in raises):
         rep.ok("R2", "constructor", "stores the readout only if it starts with '/' and contains '!' (ValueError otherwise)")
     else:
-        rep.violation("R2", f"{MOD}.DataReadout.__init__", "constructor-checks", "a DataReadout can be constructed from bytes that do not start with '/' or have no '!'", file, init.node.lineno)
+        # the tests are not in a recognised form: the constructor is interpreted on representative byte strings (E-ABS)
+        from sa.abseval import AbsEval, AbsRaise
+        outcome = {}
+        for tag_, sample in (("no-slash", b"X/ABC5x\r\n1-0:1.8.0(1*kWh)\r\n!\r\n"), ("no-end", b"/ABC5x\r\n1-0:1.8.0(1*kWh)\r\n"), ("good", b"/ABC5x\r\n1-0:1.8.0(1*kWh)\r\n!\r\n"),
+                             ("good-leading-space", b"\r\n /ABC5x\r\n1-0:1.8.0(1*kWh)\r\n!AB12\r\n")):
+            try:
+                AbsEval(M).instantiate(CLS, [sample])
+                outcome[tag_] = "constructed"
+            except AbsRaise as ex_:
+                outcome[tag_] = ex_.cls
+            except Exception as ex_:  # noqa
+                outcome[tag_] = f"?{type(ex_).__name__}"
+        if outcome["no-slash"] == "constructed" or outcome["no-end"] == "constructed":
+            rep.violation("R2", f"{MOD}.DataReadout.__init__", "constructor-checks", "a DataReadout can be constructed from bytes that do not start with '/' or have no '!'", file, init.node.lineno,
+                          witness=str(outcome))
+        elif outcome["good"] != "constructed" or outcome["good-leading-space"] != "constructed":
+            if str(outcome["good"]).startswith("?") or str(outcome["good-leading-space"]).startswith("?"):
+                rep.undecide(f"R2 the constructor's tests are not in a recognised form and it is outside the interpreted subset ({outcome})")
+            else:
+                rep.violation("R2", f"{MOD}.DataReadout.__init__", "constructor-rejects", "the constructor refuses a well-formed readout", file, init.node.lineno, witness=str(outcome))
+        else:
+            rep.undecide(f"R2 the constructor's '/' and '!' tests are not in a recognised form (representative byte strings are treated correctly: {outcome})")
     # ---------------------------------------------------------------- R1 + R2: CRC fold
     window = E0.ev(foldnode.iter, foldentry.clone(), foldfr)
     _crc(rep, M, ce, crcfn, RO, END, file, window, stored, foldnode)
@@ -132,16 +176,16 @@ def _crc(rep, M, ce, fn, RO, END, file, window_sv, stored, loop):
     vars = Vars()
     ex = SymExec(M, ce, vars, MOD, CLS)
     env = {}
-    pro = []
     for s in body[:i]:
-        # statements that only prepare the window (slices / attribute reads) are covered by the window value computed by E-PATH
-        if isinstance(s, ast.Assign) and isinstance(s.targets[0], ast.Name) and not isinstance(s.value, ast.Constant):
-            continue
-        pro.append(s)
-    try:
-        ex.run_body(pro, env)
-    except Top as e:
-        raise Undecided(f"CRC prologue: {e}")
+        # statements that only prepare the window (slices / attribute reads) are covered by the window value computed by E-PATH: an assignment of a
+        # value outside the bit-vector domain is one of those; everything else (the initial register, however it is named) is executed
+        try:
+            ex.run_body([s], env)
+        except Top as e:
+            if isinstance(s, (ast.Assign, ast.AnnAssign)) and isinstance(s.targets[0] if isinstance(s, ast.Assign) else s.target, ast.Name):
+                env.pop((s.targets[0] if isinstance(s, ast.Assign) else s.target).id, None)
+                continue
+            raise Undecided(f"CRC prologue: {e}")
     assigned = {n.id for s in loop.body for n in ast.walk(s) if isinstance(n, ast.Name) and isinstance(n.ctx, ast.Store)}
     acc = [k for k in env if k in assigned]
     if len(acc) != 1:
@@ -340,9 +384,41 @@ def _expected(rep, M, C, RO, END, file):
                 and r0[2][0][2][0] == sl and all(a == ("c", "ascii") or a == ("kw", "errors", ("c", "strict")) for a in r0[2][0][2][1:])
     if ok and ok_el:
         rep.ok("R4", "expected_checksum", "int(text after '!', 16) where the end line is readout[pos('!'):] decoded and stripped; None exactly when nothing follows '!'")
+        return
+    # not in the recognised form: the accessor is interpreted (E-ABS) on readouts whose end lines cover both sides of every test the reference makes
+    from sa.abseval import AbsEval, AbsRaise
+    texts = [b"", b"0", b"0000", b"ABCD", b"abcd", b"00ff", b"1", b"12345", b" 12AB", b"12AB  ", b"\t7f", b"G123", b"12 34", b"0x1F", b"-1", b"+1f", b"1_0", b"\xff\xfe", b"12\xe9", b" ", b"12AB\r"]
+    bad_w = und_w = None
+    for t in texts:
+        raw = b"/ABC5x\r\n1-0:1.8.0(1*kWh)\r\n!" + t + b"\r\n"
+        try:
+            e_ = raw[raw.find(b"!"):].decode("ascii").strip()
+            want = ("value", None if len(e_) <= 1 else int(e_[1:].strip(), 16))
+        except UnicodeDecodeError:
+            want = ("raise", "UnicodeDecodeError")
+        except ValueError:
+            want = ("raise", "ValueError")
+        A = AbsEval(M)
+        try:
+            obj = A.instantiate(CLS, [raw])
+        except Exception as ex_:  # noqa
+            und_w = f"DataReadout({raw[-12:]!r}) outside the interpreted subset: {type(ex_).__name__}"
+            break
+        got = A.apply(fn, [obj])
+        if got[0] in ("undecided", "branch"):
+            und_w = f"expected_checksum outside the interpreted subset for the end line {b'!' + t!r}: {got[1]!r}"
+            break
+        if tuple(got[:2]) != want:
+            bad_w = f"end line {b'!' + t!r}: {got[0]} {got[1]!r}, expected {want[0]} {want[1]!r}"
+            break
+    if und_w:
+        rep.undecide(f"R4 {und_w}")
+    elif bad_w is None:
+        rep.ok("R4", "expected_checksum", f"interpreted on {len(texts)} end lines (empty, one to five digits, both letter cases, surrounding white space, non-hexadecimal and non-ASCII text): "
+               "int(text after '!', 16), None exactly when nothing follows '!', ValueError otherwise")
     else:
         rep.violation("R4", at, "checksum-parse", "the transmitted checksum is not `int(text after '!', base 16)`, absent only when that text is empty", file, fn.node.lineno,
-                      witness="; ".join(show_sv(p.ret)[:70] if p.ret else "None" for p in ps))
+                      witness=bad_w)
 
 
 def _nolines(sv):
